@@ -1,8 +1,25 @@
 package chainsim
 
 import (
+	"context"
+
+	registryState "github.com/oasisprotocol/oasis-core/go/consensus/cometbft/apps/registry/state"
 	registry "github.com/oasisprotocol/oasis-core/go/registry/api"
 )
+
+// runtimeSuspended reports whether the scenario's runtime is suspended in the committed state.
+func (g *TxGen) runtimeSuspended() bool {
+	if g.h.Sc.Runtime == nil || g.h.Ref.Height == 0 {
+		return false
+	}
+	st, err := CommittedState(g.h.Ref, 0)
+	if err != nil {
+		return false
+	}
+	defer st.Close()
+	_, err = registryState.NewImmutableState(st).SuspendedRuntime(context.Background(), g.h.Sc.Runtime.ID)
+	return err == nil
+}
 
 // mkRegisterRuntime generates runtime (re-)registration transactions: benign
 // updates by the owner, the entity -> runtime governance handover, updates by
@@ -19,7 +36,11 @@ func (g *TxGen) mkRegisterRuntime() *GenTx {
 	intent := "valid"
 	note := "rt-update"
 	nd := cur
-	switch c := rng.IntN(10); {
+	c := rng.IntN(10)
+	if g.runtimeSuspended() && rng.IntN(2) == 0 {
+		c = 7 // while the runtime is suspended: mostly foreign attempts (half of them take-overs)
+	}
+	switch {
 	case c < 4:
 		// Benign parameter update (does not affect committee shapes or round handling).
 		nd.TxnScheduler.MaxBatchSize = cur.TxnScheduler.MaxBatchSize + 1
@@ -32,6 +53,16 @@ func (g *TxGen) mkRegisterRuntime() *GenTx {
 		nd.TxnScheduler.MaxBatchSize = cur.TxnScheduler.MaxBatchSize + 2
 		if signer != owner {
 			intent = "wrong-tx-signer"
+			// Half of the foreign attempts are take-overs: another registered entity names itself
+			// as the owner in the descriptor it submits.
+			if rng.IntN(2) == 0 {
+				for _, e := range sc.Entities {
+					if e.Account == signer && g.view().Entities[e.PK] != nil {
+						nd.EntityID = e.PK
+						note = "rt-foreign-takeover"
+					}
+				}
+			}
 		}
 	default:
 		// Forbidden transition back to entity governance / change of kind.
